@@ -270,6 +270,38 @@ void gen_corruptgrid(Plan& p, Rng& r, uint64_t index)
     }
 }
 
+void gen_cross(Plan& p, Rng& r)
+{
+    // the public track / crate API and the public 2.x table API acting in turn on one library
+    p.cfg.schema = 11 + (int)r.below(7);
+    p.cfg.table_api = true;
+    p.cfg.checks = CK_MODEL | CK_DIFF | CK_TABLE | CK_RELOAD | (r.chance(1, 3) ? CK_PURITY : 0);
+    p.cfg.gf.nul_bytes = false;
+    p.steps.push_back(mk("create_track", r, 0, 1));
+    p.steps.push_back(mk("create_root", r, 0, 1));
+    static const char* ops[] = {"t_add", "t_update", "t_setcol", "t_remove", "p_add", "p_update", "p_remove", "e_add", "e_remove", "e_clear",
+                                "create_track", "set", "remove_track", "create_root", "create_sub", "create_sub_after", "set_name",
+                                "set_parent", "remove_crate", "add_track", "remove_from", "clear", "reload", "rewrite", "update"};
+    std::vector<unsigned> w = {8, 4, 10, 4, 10, 8, 4, 8, 4, 2, 5, 12, 3, 4, 6, 4, 3, 6, 4, 8, 4, 2, 3, 2, 3};
+    for (auto& x : w)
+        if (r.chance(1, 6))
+            x = 0;
+    int n = 8 + (int)r.below(16);
+    for (int i = 0; i < n; ++i)
+    {
+        size_t k = r.weighted(w);
+        if (std::string(ops[k]) == "set")
+            p.steps.push_back(track_step(r, draw_size(r)));
+        else
+        {
+            Step s = mk(ops[k], r, 4, draw_size(r));
+            if (s.op == "set_parent" && r.chance(1, 5))
+                s.a[1] = -1;
+            p.steps.push_back(s);
+        }
+    }
+}
+
 void gen_foreign1(Plan& p, Rng& r)
 {
     // C02 converse on schema 1.x: the independent encoder writes, the public track API reads
@@ -517,6 +549,8 @@ Plan generate_plan(const std::string& profile_in, uint64_t seed, uint64_t index)
         gen_foreign(p, r);
     else if (profile == "corruptgrid")
         gen_corruptgrid(p, r, index);
+    else if (profile == "cross")
+        gen_cross(p, r);
     else if (profile == "foreign1")
         gen_foreign1(p, r);
     else if (profile == "corrupt")
